@@ -850,6 +850,19 @@ Proof.
     rewrite lookup_del_other by exact NE. exact P2.
 Qed.
 
+Lemma restart_inv F i w w' c : Inv w -> step F w (ORestart i) = (w', c) -> Inv w'.
+Proof.
+  intros [ND FA] H. cbn [step] in H. destruct (nth_error (reg w) i) as [s|]; [|inversion H; subst; split; assumption].
+  inversion H; subst. clear H. split; cbn [reg wenv]; [exact ND|].
+  eapply Forall_impl; [|exact FA]. intros t [A B]. split; [exact A|]. intros R. destruct (B R) as (p & P1 & P2).
+  exists p. split; [exact P1|]. unfold restart_proc. unfold livee in *.
+  destruct (live (eos (wenv w)) (number s)) as [q|] eqn:LQ; [|exact P2].
+  cbn [eos ekilled]. destruct (N.eq_dec (number t) (number s)) as [E|NE].
+  - right. destruct P2 as [P2|P2]; [|right; exact P2]. left. rewrite E in P2. congruence.
+  - destruct P2 as [P2|P2]; [left|right; right; exact P2]. unfold live. cbn [procs].
+    rewrite lookup_cons_other by exact NE. rewrite lookup_del_other by exact NE. exact P2.
+Qed.
+
 (* ================================================================ every step keeps the invariant *)
 Lemma step_inv F w o w' c : Inv w -> step F w o = (w', c) -> Inv w'.
 Proof.
@@ -861,6 +874,7 @@ Proof.
   - cbn [step] in H. eapply on_service_inv; [apply mgr_upgrade_props|exact I|exact H].
   - eapply refresh_inv; eauto.
   - eapply kill_inv; eauto.
+  - eapply restart_inv; eauto.
 Qed.
 
 Lemma init_inv : Inv init.
@@ -916,6 +930,8 @@ Proof.
   - destruct (refresh_nodes F (reg w) (wenv w)) as [rg e] eqn:Hr. inversion H; subst.
     apply refresh_nodes_spec in Hr. destruct Hr as (_ & _ & LL & _). cbn [wenv]. auto.
   - destruct (nth_error (reg w) i); inversion H; subst; [|exact L]. cbn [wenv]. unfold kill_proc.
+    destruct (live _ _); exact L.
+  - destruct (nth_error (reg w) i); inversion H; subst; [|exact L]. cbn [wenv]. unfold restart_proc.
     destruct (live _ _); exact L.
 Qed.
 
@@ -1022,6 +1038,18 @@ Proof.
   - rewrite lookup_del_other by exact NE. exact A.
 Qed.
 
+Lemma restart_J F i w w' c : Jw w -> step F w (ORestart i) = (w', c) -> Jw w' /\ keeps_removed w w'.
+Proof.
+  intros J H. cbn [step] in H. destruct (nth_error (reg w) i) as [s|]; inversion H; subst;
+    [|split; [exact J|apply keeps_removed_refl]].
+  split; [|intros j t Hj R; exists t; auto].
+  intros t Ht R. cbn [reg] in Ht. destruct (J t Ht R) as (A & B). cbn [wenv]. unfold restart_proc, livee, inste in *.
+  destruct (live (eos (wenv w)) (number s)) eqn:LQ; [|auto]. cbn [eos]. split; [|exact B].
+  unfold live in *. cbn [procs]. destruct (N.eq_dec (number t) (number s)) as [E|NE].
+  - rewrite E in A. congruence.
+  - rewrite lookup_cons_other by exact NE. rewrite lookup_del_other by exact NE. exact A.
+Qed.
+
 Lemma run_from_app F a b w : run_from F w (a ++ b) = run_from F (run_from F w a) b.
 Proof. unfold run_from. apply fold_left_app. Qed.
 
@@ -1050,6 +1078,7 @@ Proof.
   - eapply TWO; [apply mgr_upgrade_props|reflexivity].
   - intros _. cbn [run_from fold_left]. destruct (step F w ORefresh) as [w1 c1] eqn:H1. eapply refresh_J; eauto.
   - intros _. cbn [run_from fold_left]. destruct (step F w (OKill i)) as [w1 c1] eqn:H1. eapply kill_J; eauto.
+  - intros _. cbn [run_from fold_left]. destruct (step F w (ORestart i)) as [w1 c1] eqn:H1. eapply restart_J; eauto.
 Qed.
 
 Lemma cmds_J F cs : forall w, Inv w -> Jw w -> elied (wenv (run_from F w (expand cs))) = false ->
@@ -1221,6 +1250,7 @@ Proof.
   - eapply OS; [apply mgr_remove_props|exact H].
   - eapply OS; [apply mgr_upgrade_props|exact H].
   - destruct (refresh_nodes F (reg w) (wenv w)). inversion H; subst. discriminate NOK.
+  - destruct (nth_error (reg w) i0); inversion H; subst; [discriminate NOK|eauto].
   - destruct (nth_error (reg w) i0); inversion H; subst; [discriminate NOK|eauto].
 Qed.
 
@@ -1500,4 +1530,12 @@ Example ex_empty_peer_list_is_not_none :
   peers s = Some [] /\ jget "connected_peers" (save_svc s) = Some (JArr []) /\
   option_map peers (load_svc (save_svc s)) = Some (Some []) /\
   option_map peers (load_svc (save_svc (on_stop s))) = Some None.
+Proof. vm_compute. repeat split. Qed.
+
+(* ================================================================ an out-of-band restart is picked up by the next refresh *)
+Example ex_restart_then_refresh :
+  let w := run [] [add1; OStart 0%nat false; ORestart 0%nat] in
+  let w' := run [] ([add1; OStart 0%nat false; ORestart 0%nat] ++ [ORefresh]) in
+  map pid (reg w) = [Some 1000] /\ live (eos (wenv w)) 1 = Some 1001 /\
+  map (fun s => (st s, pid s)) (reg w') = [(Running, Some 1001)].
 Proof. vm_compute. repeat split. Qed.
